@@ -76,6 +76,7 @@ def check(ctx):
                     "evo.entry_points.merge_config")
     ctx.section(_set_config, ctx, prog)
     ctx.section(_finalize, ctx, prog)
+    ctx.section(_is_number, ctx, prog)
     ctx.section(_reset, ctx, prog)
     ctx.section(_upgrade, ctx, prog)
     ctx.section(_lock, ctx, prog)
@@ -256,6 +257,48 @@ def _set_config(ctx, prog):
            "strings" if ok else
            f"set: token conversion yields only {sorted(kinds)}",
            key="C18.2:set-number-types")
+
+
+def _is_number(ctx, prog):
+    """C18.2 / C18.6: `set` and `generate` turn a value token into a number
+    exactly when is_number() says so; argparse converts the same token with
+    float() (type=float options). 'The generated config has the effect of
+    the arguments' therefore needs is_number to be "float() accepts it":
+    decided by the conversion itself, not by the spelling of the token
+    (1e-3, 1.4036E9, .5 are floats for argparse)."""
+    f = prog.func(MC + "is_number")
+    tok = tm.param(f.params[0])
+    r = Interp(prog).run(f)
+    conv = [e for e in r.calls("builtins.float")
+            if e.data["args"] and e.data["args"][0] is tok and e.tries]
+    trues = [(v, l) for v, l in r.returns if tm.is_const(v, True)]
+    falses = [(v, l) for v, l in r.returns if tm.is_const(v, False)]
+    lexical = [x for v, l in r.returns for t in (v, l) for x in t.walk()
+               if is_call_to(x, ".isdigit", ".isnumeric", ".isdecimal",
+                             ".replace", ".count", ".find", ".lstrip",
+                             ".strip", "re.match", "re.fullmatch",
+                             "re.search") or
+               (x.op == "sub" and x.args[0] is tok)]
+    by_float = bool(conv) and len(trues) >= 1 and len(falses) >= 1 and \
+        all(any(a.op == "exc" and "ValueError" in str(a.args[0])
+                for a in tm.atoms(l)) for _, l in falses) and \
+        not any(a.op == "exc" for _, l in trues for a in tm.atoms(l)) and \
+        len(trues) + len(falses) == len(r.returns)
+    if by_float and not lexical:
+        ctx.ob("C18.2", f, True,
+               "is_number(token) = float(token) succeeds — the test argparse "
+               "itself applies to float options", key="C18.2:is-number")
+    elif lexical and not r.calls("builtins.float"):
+        ctx.ob("C18.2", f, False,
+               f"is_number decides by the spelling of the token "
+               f"({fmt(lexical[0])[:60]}), not by float(token): tokens such "
+               f"as 1e-3 or 1.4036E9 that argparse accepts for float options "
+               f"are stored as strings by set / generate",
+               key="C18.2:is-number")
+    else:
+        ctx.undecidable("C18.2", f, "is_number: neither a float() "
+                        "conversion attempt nor a lexical test recognised "
+                        "(unknown idiom)")
 
 
 def _finalize(ctx, prog):
